@@ -1,3 +1,201 @@
-import NxModel.Bytes
-/-! driver stub for C19 (replaced when the property's model lands) -/
-def main : IO Unit := IO.println "stub C19"
+import NxModel.Misc.Mii
+import NxModel.Misc.Auth
+import NxModel.DriverUtil
+/-! line-protocol driver for C19 (bytes in hex, `-` = empty; text as comma-separated code points; see harness/corr_C19.py)
+-/
+open Nx Nx.Crypto Nx.Misc
+
+def natList? (s : String) : Option (List Nat) :=
+  if s = "-" then some [] else (s.splitOn ",").mapM String.toNat?
+
+def showNatList (l : List Nat) : String := if l.isEmpty then "-" else ",".intercalate (l.map toString)
+
+def parseVal (s : String) : Option Val :=
+  if s.startsWith "l:" then (natList? (s.drop 2).toString |>.map Val.l) else s.toNat?.map Val.n
+
+def showVal : Val → String
+  | .n v => toString v
+  | .l vs => "l:" ++ showNatList vs
+
+def exc {α} (f : α → String) : Except Err α → String
+  | .ok a => "ok " ++ f a
+  | .error e => "err " ++ e.name
+
+def hx (s : String) : Option Bytes := fromHex s
+
+def hexS (s : String) : Bytes := (fromHex s).getD []
+
+def selfTests : List (String × Bool) :=
+  let pt := hexS "00112233445566778899aabbccddeeff"
+  let ck := hexS "2b7e151628aed2a6abf7158809cf4f3c"
+  let m := hexS "6bc1bee22e409f96e93d7e117393172aae2d8a571e03ac9c9eb76fac45af8e5130c81c46a35ce411e5fbc1191a0a52eff69f2445df4f9b17ad2b417be66c3710"
+  let keyN (n : Nat) : Bytes := (List.range n).map UInt8.ofNat
+  [ ("fips197-c1-enc", aesEcbEncrypt (keyN 16) pt = .ok (hexS "69c4e0d86a7b0430d8cdb78070b4c55a")),
+    ("fips197-c2-enc", aesEcbEncrypt (keyN 24) pt = .ok (hexS "dda97ca4864cdfe06eaf70a0ec0d7191")),
+    ("fips197-c3-enc", aesEcbEncrypt (keyN 32) pt = .ok (hexS "8ea2b7ca516745bfeafc49904b496089")),
+    ("fips197-c1-dec", aesEcbDecrypt (keyN 16) (hexS "69c4e0d86a7b0430d8cdb78070b4c55a") = .ok pt),
+    ("fips197-c2-dec", aesEcbDecrypt (keyN 24) (hexS "dda97ca4864cdfe06eaf70a0ec0d7191") = .ok pt),
+    ("fips197-c3-dec", aesEcbDecrypt (keyN 32) (hexS "8ea2b7ca516745bfeafc49904b496089") = .ok pt),
+    ("fips197-sbox", subByte 0x53 = 0xed ∧ subByte 0 = 0x63 ∧ invSubByte 0xed = 0x53),
+    ("rfc4493-0", aesCmac ck [] = .ok (hexS "bb1d6929e95937287fa37d129b756746")),
+    ("rfc4493-16", aesCmac ck (m.take 16) = .ok (hexS "070a16b46b4d4144f79bdd9dd04a287c")),
+    ("rfc4493-40", aesCmac ck (m.take 40) = .ok (hexS "dfa66747de9ae63030ca32611497c827")),
+    ("rfc4493-64", aesCmac ck m = .ok (hexS "51f0bebf7e3b9d92fc49741779363cfe")),
+    ("fips180-abc", sha256 (ascii "abc") = hexS "ba7816bf8f01cfea414140de5dae2223b00361a396177a9cb410ff61f20015ad"),
+    ("fips180-empty", sha256 [] = hexS "e3b0c44298fc1c149afbf4c8996fb92427ae41e4649b934ca495991b7852b855"),
+    ("fips180-448", sha256 (ascii "abcdbcdecdefdefgefghfghighijhijkijkljklmklmnlmnomnopnopq") =
+        hexS "248d6a61d20638b8e5c026930c3e6039a33ce45964ff2167f6ecedd419db06c1"),
+    ("crc-xmodem-check", xmodem (ascii "123456789") = 0x31C3),
+    ("crc-arc-check", refCrc16Arc 0 (ascii "123456789") = 0xBB3D),
+    ("rfc4648", b2a (ascii "foobar") = ascii "Zm9vYmFy" ∧ b2a (ascii "fooba") = ascii "Zm9vYmE=" ∧ b2a (ascii "foob") = ascii "Zm9vYg=="),
+    -- the three request snapshots of tests/switch/test_dauth.py (1200 / 1300 / 1800)
+    ("dauth-1200", dauthTokenMac (hexS "485d45ad27c07c7e538c0183f90ee845") (hexS "37eed242e0f2ce6f8371e783c1a6a0ae")
+        ((ascii "dlL7ZBNSLmYo1hUlKYZiUA==").map (·.toNat))
+        (dauthForm (ascii "vaNgVZZH7gUse0y3t8Cksuln-TAVtvBmcD-ow59qp0E=") 0x8f849b5d34778d8e false 11
+          (ascii "CusHY#000c0000#C-BynYNPXdQJNBZjx02Hizi8lRUSIKLwPGa5p8EY1uo=") none) = .ok (ascii "xRB_6mgnNqrnF9DRsEpYMg")),
+    ("dauth-1300", dauthTokenMac (hexS "cae2728f56af642d5d59dfc23bd314a2") (hexS "f1642c98bddb5850eb23d0cebab7dc05")
+        ((ascii "4SxW91vqVg6pz4CXMH2Ouw==").map (·.toNat))
+        (dauthForm (ascii "TzJ0EB3EvsWvQI5aPj15uaNVH9paGdsWB4l-eI5uzW0=") 0x8f849b5d34778d8e false 13
+          (ascii "CusHY#000d0000#r1xneESd4PiTRYIhVIl0bK1ST5L5BUmv_uGPLqc4PPo=") none) = .ok (ascii "dGMjt0ShsDr-uNrsHtCB1g")),
+    ("dauth-1800", dauthTokenMac (hexS "1092ce3d2c208c250ebe248537f2df73") (hexS "2fcb5dd5355a220a12eaeb8069bb75e1")
+        ((ascii "4SxW91vqVg6pz4CXMH2Ouw==").map (·.toNat))
+        (dauthForm (ascii "TzJ0EB3EvsWvQI5aPj15uaNVH9paGdsWB4l-eI5uzW0=") 0x8f849b5d34778d8e false 17
+          (ascii "CusHY#00120000#U531L4Si9RbhOVeyVppe18WHkJ0k4_KzrNtygsekMNo=") none) = .ok (ascii "c4SgqSjdfdNFoRM35ChrLw")) ]
+
+def pairs : List String → Option (List (Bytes × Bytes))
+  | [] => some []
+  | k :: v :: r => do
+    let k ← hx k; let v ← hx v; let r ← pairs r
+    pure ((k, v) :: r)
+  | _ => none
+
+def showPairs (l : List (Bytes × Bytes)) : String :=
+  if l.isEmpty then "-" else " ".intercalate (l.map fun (k, v) => hexOut k ++ " " ++ hexOut v)
+
+def step (line : String) : String :=
+  match (line.splitOn " ").filter (· ≠ "") with
+  | ["selftest"] =>
+    match selfTests.filter (fun t => !t.2) with
+    | [] => s!"ok {selfTests.length}"
+    | l => "fail " ++ ",".intercalate (l.map (·.1))
+  | "mii-build" :: vals =>
+    match vals.mapM parseVal with
+    | some vs => exc hexOut (miiBuild vs)
+    | none => "bad-op"
+  | "mii-inrange" :: vals =>
+    match vals.mapM parseVal with
+    | some vs => if ValsInRange miiLayout vs then "ok true" else "ok false"
+    | none => "bad-op"
+  | ["mii-parse", d] =>
+    match hx d with
+    | some d => exc (fun vs => " ".intercalate (vs.map showVal)) (miiParse d)
+    | none => "bad-op"
+  | ["mii-swap", d] =>
+    match hx d with
+    | some d => exc hexOut (swapEndian d)
+    | none => "bad-op"
+  | ["mii-crc", d] =>
+    match hx d with
+    | some d => s!"ok {miiCrc16 d}"
+    | none => "bad-op"
+  | ["mii-crc-ref", d] =>   -- CRC-16/XMODEM of the data = the library's crc16 of data ++ 00 00
+    match hx d with
+    | some d => s!"ok {xmodem d}"
+    | none => "bad-op"
+  | ["mii-names"] => "ok " ++ " ".intercalate (miiLayout.map (·.name))
+  | ["bits-write", ws, vs] =>   -- generic BitStreamOut: widths, values -> bytes
+    match natList? ws, natList? vs with
+    | some ws, some vs => "ok " ++ hexOut (packBits ((List.zipWith natToBits ws vs).flatten))
+    | _, _ => "bad-op"
+  | ["bits-read", ws, d] =>     -- generic BitStreamIn: widths, bytes -> values | overflow
+    match natList? ws, hx d with
+    | some ws, some d =>
+      let rec go (ws : List Nat) (bs : Bits) (acc : List Nat) : String :=
+        match ws with
+        | [] => "ok " ++ showNatList acc.reverse
+        | w :: r => if bs.length < w then "err OverflowError" else go r (bs.drop w) (bitsToNat (bs.take w) :: acc)
+      go ws (unpackBits d) []
+    | _, _ => "bad-op"
+  | ["prod-crc", d] =>
+    match hx d with
+    | some d => s!"ok {prodCrc16 d} {refCrc16Arc 0x55AA d}"
+    | none => "bad-op"
+  | ["prod-check", off, size, d] =>
+    match off.toNat?, size.toNat?, hx d with
+    | some o, some s, some d => exc (fun _ => "-") (prodCheck d o s) ++ " | " ++ exc (fun _ => "-") (prodCheckRef d o s)
+    | _, _, _ => "bad-op"
+  | ["prod-devid", d] =>
+    match hx d with
+    | some d => exc toString (prodDeviceId d)
+    | none => "bad-op"
+  | ["prod-tlsd", kek, d] =>
+    match hx kek, hx d with
+    | some k, some d => exc toString (prodTlsD d k)
+    | _, _ => "bad-op"
+  | ["prod-cert", d] =>
+    match hx d with
+    | some d => exc hexOut (prodTlsCert d)
+    | none => "bad-op"
+  | ["b64-enc", d] => match hx d with | some d => "ok " ++ hexOut (b2a d) | none => "bad-op"
+  | ["b64-dec", t] => match natList? t with | some t => exc hexOut (asciiOf t >>= a2b) | none => "bad-op"
+  | ["url-enc", d] => match hx d with | some d => "ok " ++ hexOut (b64urlEncode d) | none => "bad-op"
+  | ["url-enc-nopad", d] => match hx d with | some d => "ok " ++ hexOut (b64urlEncodeNoPad d) | none => "bad-op"
+  | ["url-dec", t] => match natList? t with | some t => exc hexOut (asciiOf t >>= b64urlDecode) | none => "bad-op"
+  | ["url-dec-repad", t] => match natList? t with | some t => exc hexOut (asciiOf t >>= b64urlDecodeRepad) | none => "bad-op"
+  | ["nasc-enc", d] => match hx d with | some d => "ok " ++ hexOut (nascEncode d) | none => "bad-op"
+  | ["nasc-dec", t] => match natList? t with | some t => exc hexOut (nascDecodeStr t) | none => "bad-op"
+  | "nasc-form-enc" :: kv => match pairs kv with | some f => "ok " ++ showPairs (nascEncodeForm f) | none => "bad-op"
+  | "nasc-form-dec" :: kv => match pairs kv with | some f => exc showPairs (nascDecodeForm f) | none => "bad-op"
+  | ["dauth-keyname", g] => match g.toNat? with | some g => "ok " ++ hexOut (masterKeyName g) | none => "bad-op"
+  | ["dauth-mac", kek, mk, data, form] =>
+    match hx kek, hx mk, hx data, hx form with
+    | some kek, some mk, some data, some form => exc hexOut (dauthMac kek mk data form)
+    | _, _, _, _ => "bad-op"
+  | ["dauth-token", kek, mk, dataText, challenge, cid, ist, keygen, digest, vendor] =>
+    match hx kek, hx mk, natList? dataText, hx challenge, cid.toNat?, keygen.toNat?, hx digest with
+    | some kek, some mk, some dt, some ch, some cid, some kg, some dg =>
+      let v := if vendor = "none" then some none else (hx vendor).map some
+      match v with
+      | some v =>
+        let form := dauthForm ch cid (ist = "1") kg dg v
+        exc (fun m => hexOut m ++ " " ++ hexOut form) (dauthTokenMac kek mk dt form)
+      | none => "bad-op"
+    | _, _, _, _, _, _, _ => "bad-op"
+  | ["aauth-env", n, e, ticket, tid, pk, seed] =>
+    match n.toNat?, e.toNat?, hx ticket, tid.toNat?, hx pk, hx seed with
+    | some n, some e, some t, some tid, some pk, some seed =>
+      let n := if n = 0 then rsaModulus else n
+      let e := if e = 0 then rsaExponent else e
+      exc (fun (c, k) => hexOut c ++ " " ++ hexOut k) (aauthEnvelope n e t tid pk seed)
+    | _, _, _, _, _, _ => "bad-op"
+  | ["aauth-const"] => s!"ok {rsaModulus} {rsaExponent}"
+  | ["hpp-sig", ak, pw, pid, data] =>
+    match hx ak, hx pw, pid.toNat?, hx data with
+    | some ak, some pw, some pid, some data =>
+      let (a, b) := hppSignatures ak pw pid data
+      "ok " ++ hexOut a ++ " " ++ hexOut b
+    | _, _, _, _ => "bad-op"
+  | ["hpp-val", cid, meth, resp] =>
+    match cid.toNat?, meth.toNat?, hx resp with
+    | some cid, some m, some r =>
+      match hppValidate cid m r with
+      | .body b => "body " ++ hexOut b
+      | .rmcError c => s!"rmcerror {c}"
+      | .err e => "err " ++ e.name
+    | _, _, _ => "bad-op"
+  | ["nnas", pid, pw] =>
+    match pid.toNat?, natList? pw with
+    | some pid, some pw => exc hexOut (nnasHash pid pw)
+    | _, _ => "bad-op"
+  | ["sha256", d] => match hx d with | some d => "ok " ++ hexOut (sha256 d) | none => "bad-op"
+  | ["aes-ecb-dec", k, d] => match hx k, hx d with | some k, some d => exc hexOut (aesEcbDecrypt k d) | _, _ => "bad-op"
+  | ["aes-cbc-enc", k, d] => match hx k, hx d with | some k, some d => exc hexOut (aesCbcEncrypt k (List.replicate 16 0) (pkcs7Pad d)) | _, _ => "bad-op"
+  | ["aes-ctr", k, iv, d] => match hx k, hx iv, hx d with | some k, some iv, some d => exc hexOut (aesCtr k iv d) | _, _, _ => "bad-op"
+  | ["cmac", k, d] => match hx k, hx d with | some k, some d => exc hexOut (aesCmac k d) | _, _ => "bad-op"
+  | ["derive-old", b, p, pw, pid] =>
+    match b.toNat?, p.toNat?, hx pw, pid.toNat? with
+    | some b, some p, some pw, some pid => if p = 0 then "err ZeroDivisionError" else "ok " ++ hexOut (deriveOld b p pw pid)
+    | _, _, _, _ => "bad-op"
+  | _ => "bad-op"
+
+def main : IO Unit := runLines step
